@@ -186,8 +186,10 @@ fn g_additional(rng: &mut Rng) -> HashMap<String, Value> {
     };
     let mut m = HashMap::new();
     for _ in 0..n {
-        // keys that cannot collide with the declared field names (those are camelCase words)
-        m.insert(format!("_{}", g_key(rng)), g_value(rng, 3));
+        // keys that cannot collide with the declared field names (those are camelCase words);
+        // some share a long prefix so that their encodings agree in the first bytes
+        let k = if rng.chance(1, 3) { format!("_{}", g_prefixed_key(rng)) } else { format!("_{}", g_key(rng)) };
+        m.insert(k, g_value(rng, 3));
     }
     m
 }
@@ -281,10 +283,126 @@ fn g_reject_reason(rng: &mut Rng) -> plt::TokenModuleRejectReasonType {
     }
 }
 
+/// A byte string of `total` bytes in indefinite-length encoding: 0x5f, definite chunks, 0xff.
+fn indefinite_bytes(rng: &mut Rng, total: usize) -> Vec<u8> {
+    let mut out = vec![0x5f];
+    let mut left = total;
+    let data = rng.bytes(total);
+    let mut at = 0;
+    while left > 0 {
+        let n = rng.urange(1, left).min(23);
+        out.push(0x40 | n as u8);
+        out.extend_from_slice(&data[at..at + n]);
+        at += n;
+        left -= n;
+        if rng.chance(1, 5) {
+            out.push(0x40); // an empty chunk
+        }
+    }
+    out.push(0xff);
+    out
+}
+
+/// Fixed-size byte targets fed with indefinite-length byte strings: accepted iff the chunks add
+/// up to exactly the expected size.
+fn crafted_fixed(size: usize, wrap_tag: Option<&'static [u8]>) -> Box<dyn Fn(u64) -> (Vec<u8>, Option<bool>) + Send + Sync> {
+    Box::new(move |seed| {
+        let mut rng = Rng::new(seed);
+        let total = match rng.below(6) {
+            0 => 0,
+            1 => size - 1,
+            2 => size + 1,
+            3 => size / 2,
+            _ => size,
+        };
+        let mut b = Vec::new();
+        if let Some(t) = wrap_tag {
+            b.extend_from_slice(t);
+        }
+        b.extend(indefinite_bytes(&mut rng, total));
+        (b, Some(total == size))
+    })
+}
+
+/// Valid CBOR in unusual clothes for the generic data model: indefinite-length arrays, maps and
+/// strings, integers in wider encodings than necessary. Only totality and stability are required.
+fn crafted_value(seed: u64) -> (Vec<u8>, Option<bool>) {
+    let mut rng = Rng::new(seed);
+    fn item(rng: &mut Rng, depth: u32, out: &mut Vec<u8>) {
+        match if depth > 4 { rng.below(4) } else { rng.below(8) } {
+            0 => {
+                // non-minimal unsigned integer
+                let v = rng.below(24);
+                match rng.below(4) {
+                    0 => out.extend_from_slice(&[0x18, v as u8]),
+                    1 => {
+                        out.push(0x19);
+                        out.extend_from_slice(&(v as u16).to_be_bytes());
+                    }
+                    2 => {
+                        out.push(0x1a);
+                        out.extend_from_slice(&(v as u32).to_be_bytes());
+                    }
+                    _ => {
+                        out.push(0x1b);
+                        out.extend_from_slice(&v.to_be_bytes());
+                    }
+                }
+            }
+            1 => {
+                let n = rng.urange(0, 30);
+                out.extend(indefinite_bytes(rng, n))
+            }
+            2 => {
+                // indefinite-length text
+                out.push(0x7f);
+                for _ in 0..rng.urange(0, 3) {
+                    out.extend_from_slice(&[0x62, b'a', b'b']);
+                }
+                out.push(0xff);
+            }
+            3 => out.push(*rng.pick(&[0xf4u8, 0xf5, 0xf6, 0x00, 0x20])),
+            4 | 5 => {
+                out.push(0x9f);
+                for _ in 0..rng.urange(0, 3) {
+                    item(rng, depth + 1, out);
+                }
+                out.push(0xff);
+            }
+            6 => {
+                out.push(0xbf);
+                for k in 0..rng.urange(0, 3) {
+                    out.push(k as u8);
+                    item(rng, depth + 1, out);
+                }
+                out.push(0xff);
+            }
+            _ => {
+                out.push(0xc1);
+                item(rng, depth + 1, out);
+            }
+        }
+    }
+    let mut out = Vec::new();
+    item(&mut rng, 0, &mut out);
+    (out, None)
+}
+
+fn with_crafted(mut s: Subject, c: Box<dyn Fn(u64) -> (Vec<u8>, Option<bool>) + Send + Sync>) -> Subject {
+    s.crafted = Some(c);
+    s
+}
+
+/// Map keys sharing a long prefix (their encodings agree in the first bytes), in random insertion order.
+fn g_prefixed_key(rng: &mut Rng) -> String {
+    let base = *rng.pick(&["checksumSha", "additionalField", "aaaaaaaaaaaaaaaaaaaa"]);
+    format!("{}{}", base, rng.below(12))
+}
+
 pub fn cbor_subjects() -> Vec<Subject> {
     let mut v: Vec<Subject> = Vec::new();
     // generic data model
-    v.push(cbor_subject::<Value>("cbor::Value", false, |r| g_value(r, 0)));
+    v.push(with_crafted(cbor_subject::<Value>("cbor::Value", false, |r| g_value(r, 0)), Box::new(crafted_value)));
     v.push(cbor_subject::<Value>("cbor::Value(deep)", false, g_deep_value));
     // primitives at every width boundary
     v.push(cbor_subject::<u8>("u8", false, |r| g_u64(r) as u8));
@@ -300,9 +418,16 @@ pub fn cbor_subjects() -> Vec<Subject> {
     v.push(cbor_subject::<f64>("f64", false, g_f64));
     v.push(cbor_subject::<String>("String", false, g_string));
     v.push(cbor_subject::<Bytes>("Bytes", false, |r| Bytes(g_bytes(r))));
-    v.push(cbor_subject::<[u8; 4]>("[u8;4]", false, |r| {
-        let b = r.bytes(4);
-        [b[0], b[1], b[2], b[3]]
+    v.push(with_crafted(
+        cbor_subject::<[u8; 4]>("[u8;4]", false, |r| {
+            let b = r.bytes(4);
+            [b[0], b[1], b[2], b[3]]
+        }),
+        crafted_fixed(4, None),
+    ));
+    v.push(cbor_subject::<HashMap<String, u32>>("HashMap<String,u32>(shared key prefixes)", false, |r| {
+        let n = r.urange(0, 8);
+        (0..n).map(|_| (g_prefixed_key(r), g_u64(r) as u32)).collect()
     }));
     v.push(cbor_subject::<Vec<u32>>("Vec<u32>", false, |r| {
         let n = g_len(r);
@@ -325,8 +450,8 @@ pub fn cbor_subjects() -> Vec<Subject> {
     v.push(cbor_subject::<UnsignedDecimalFraction>("UnsignedDecimalFraction", false, |r| {
         UnsignedDecimalFraction::new(g_i64(r), g_u64(r))
     }));
-    v.push(cbor_subject::<AccountAddress>("AccountAddress", false, g_account));
-    v.push(cbor_subject::<concordium_base::hashes::Hash>("Hash", false, g_hash));
+    v.push(with_crafted(cbor_subject::<AccountAddress>("AccountAddress", false, g_account), crafted_fixed(32, None)));
+    v.push(with_crafted(cbor_subject::<concordium_base::hashes::Hash>("Hash", false, g_hash), crafted_fixed(32, None)));
     // protocol-level token types
     v.push(cbor_subject::<plt::TokenAmount>("TokenAmount", false, g_token_amount));
     v.push(cbor_subject::<plt::CoinInfo>("CoinInfo", false, |_| plt::CoinInfo::CCD));
